@@ -18,7 +18,7 @@ func genContainer(g *genCtx) {
 	r := g.rng(22)
 	n := 120
 	if g.thorough() {
-		n = 4000
+		n = 40000
 	}
 	for i := 0; i < n; i++ {
 		rr := rand.New(rand.NewSource(r.Int63()))
